@@ -57,10 +57,14 @@ PROGRAMS = [
     # ... or to a formatting operation (%, {}), to the environment ($, ~), to a shell (quote, blank, semicolon, backslash)
     ('100%', 'percent(sign).\n', 'ok'), ('rate%done%s', 'percent(twice).\n', 'ok'), ('{0}{name}', 'braces(name).\n', 'ok'), ('$HOME', 'dollar(name).\n', 'ok'),
     ('~', 'tilde(name).\n', 'ok'), ('back\\slash', 'backslash(name).\n', 'ok'), ("it's", 'quote(name).\n', 'ok'), ('two words;x', 'blank(name).\n', 'ok'),
+    # ... or to a terminal (an ANSI colour sequence), and names near the length limit of a file name - also for a
+    # program with a syntax error, whose report names the file AND the position however long the name is
+    ('\x1b[1mbold\x1b[0m', 'escape(sequence).\n', 'ok'), ('n' * 236, 'long(name).\n', 'ok'), ('e' * 236, 'foo(a).\nbar(b :- c.\n', 'syntax'),
+    ('f' * 120, "foo(a).\nbar('unterminated %s).\n" % ('x' * 300), 'syntax'),
     ('open-ended', 'wet(X) :- rain(X),\n', 'syntax'),
     ('multiline-clause', "longer(\n  'first\nsecond',\n  X\n) :-\n  true,\n  X = 'x'.\n", 'ok'),
 ]
-QUICK = ['facts', 'newlines', 'unicode', 'syntax-error', 'control', 'linebreaks', 'too-large', 'directives-discontiguous', 'control-characters', 'large-non-ascii', 'lexical-error', 'deep-parentheses', 'very-deep-parentheses', 'report[12]', 'what?', '100%', 'rate%done%s', '{0}{name}', '$HOME', '~', 'back\\slash', "it's", 'two words;x']
+QUICK = ['facts', 'newlines', 'unicode', 'syntax-error', 'control', 'linebreaks', 'too-large', 'directives-discontiguous', 'control-characters', 'large-non-ascii', 'lexical-error', 'deep-parentheses', 'very-deep-parentheses', 'report[12]', 'what?', '100%', 'rate%done%s', '{0}{name}', '$HOME', '~', 'back\\slash', "it's", 'two words;x', '\x1b[1mbold\x1b[0m', 'n' * 236, 'e' * 236, 'f' * 120]
 FLAGS = ['-d', '--debug-parser', '--debug-generator', '--debug-filename']
 
 
@@ -98,7 +102,7 @@ def lib_output(path):
 # particular input shape run under 4 flag sets (none, all, parser only, generator + filename) alone and
 # followed by a second source
 FULL_CROSS_PRODUCT = ('facts', 'newlines', 'unicode', 'syntax-error', 'control', 'linebreaks')
-REDUCED_FLAGS = ((False,) * 4, (True,) * 4, (False, True, False, False), (False, False, True, True))
+REDUCED_FLAGS = ((False,) * 4, (True,) * 4, (False, True, False, False), (False, False, True, True), (False, False, False, True))
 
 
 def configurations(progs):
@@ -199,6 +203,20 @@ def check_config(tmp, table, cfg, cache):
             ast.parse(produced)
         except SyntaxError as e:
             return ('violation', 'debug-output-not-python', label + 'the output is not Python: %s' % e, None)
+        if flags == (False, False, False, True):
+            # with --debug-filename alone the library, given the same option and the same source name,
+            # returns a definite text: the command line writes exactly that text (comments included)
+            want = ''
+            try:
+                for s_, pth in zip(sources, paths):
+                    class DF(impl.Ctx):
+                        debug_filename = True
+                        current_source_file = pth
+                    want += impl.compiler.compile_prolog_from_string(table[s_][0], DF)
+            except Exception:  # noqa: BLE001
+                want = None
+            if want is not None and produced != want:
+                return ('violation', 'output-differs-from-library:debug-filename', label + 'the output differs from what the library returns for the same text, source name and option:\n%s' % first_diff(want, produced), None)
     if outpath and so.strip():
         return ('violation', 'stdout-not-empty-with-o', label + 'with -o the code also went to stdout: %r' % so[:200], None)
     return ('ok', None, None, (name, 'ok', any(flags), out, inp, multi))
